@@ -17,6 +17,13 @@ Report ==
           \* drift: what flatten() really returned against the transcription's prediction
           fl == rec.out[1]
           drift == fl.r = "ok" /\ fl.e # FlattenImpl(rec.e)
+          \* likewise the two constant folders against FoldImpl
+          FoldDrift(i, comm) ==
+              LET pr == FoldImpl(rec.e, comm) got == rec.out[i] IN
+              IF IsRaise(pr) THEN (pr.e # "unrep" /\ got.r = "ok")
+              ELSE (got.r = "ok" /\ got.e # pr) \/ got.r = "err"
       IN /\ (bad = << >> \/ PrintT(ToJson([id |-> rec.id, bad |-> bad])))
          /\ (~drift \/ PrintT(ToJson([id |-> rec.id, drift |-> "flatten"])))
+         /\ (~FoldDrift(2, FALSE) \/ PrintT(ToJson([id |-> rec.id, drift |-> "fold"])))
+         /\ (~FoldDrift(3, TRUE) \/ PrintT(ToJson([id |-> rec.id, drift |-> "cfold"])))
 =============================================================================
